@@ -479,6 +479,18 @@ impl UdpProxy {
                 session.borrow_mut().close_all_flows(now);
             }
             self.managers.remove(&token);
+            // Free the listen token's slab entry, as DeactivateListener does
+            // (see `HttpProxy::remove_listener`).
+            // (a deactivated listener gave its slot back already and the key
+            // may have been reused since: only a listen entry of our kind is ours)
+            let mut sessions = self.sessions.borrow_mut();
+            if sessions
+                .slab
+                .get(token.0)
+                .is_some_and(|s| s.borrow().protocol() == Protocol::UDPListen)
+            {
+                sessions.slab.remove(token.0);
+            }
         }
         self.listeners.len() < len
     }
